@@ -172,7 +172,8 @@ func (r *Router) match(method, path string) (rt *Route, ps Params) {
 
 				if ps, ok := rs[i].matchRegex(path); ok {
 					// ret = r.newMatchResult(route, ps)
-					r.cacheDynamicRoute(key, ps, rs[i])
+					// NOTICE: the cache key must be METHOD + path, it is the key used for find caches.
+					r.cacheDynamicRoute(method+path, ps, rs[i])
 					return rs[i], ps
 				}
 			}
